@@ -165,6 +165,47 @@ theorem C01_after_root_partial (m : Mod) (hm : m ∈ graph.domain) (hs : staleFr
   show [none, (importChain graph rootState (graph.chain m)).2] = [none, none]
   rw [show (importChain graph rootState (graph.chain m)).2 = none from h2]
 
+theorem importAll_append (g : Graph) : ∀ (a b : List Mod) (s : State),
+    importAll g s (a ++ b) =
+      ((importAll g (importAll g s a).1 b).1, (importAll g s a).2 ++ (importAll g (importAll g s a).1 b).2)
+  | [], b, s => by simp [importAll]
+  | x :: a, b, s => by
+    simp only [List.cons_append, importAll, importAll_append g a b, List.cons_append]
+
+/-- **C01, the first module outside the core.**  After any sequence of imports of modules that `import ioflo`
+itself loads (any order, repetitions), importing any further module of the tree outside D01c succeeds: the
+state is still exactly `rootState`, from which the table was computed. -/
+theorem C01_first_noncore_partial (pre : List Mod) (m : Mod)
+    (hpre : ∀ x ∈ pre, x ∈ graph.domain ∧ rootState.isPresent x = true)
+    (hm : m ∈ graph.domain) (hs : staleFrom graph m = false) :
+    (importAll graph (fresh graph) (pre ++ [m])).2 = pre.map (fun _ => none) ++ [none] := by
+  have hcold : (importChain graph rootState (graph.chain m)).2 = none := by
+    have h1 := cold_via_root m hm
+    have h2 := C01_each_cold_partial m hm hs
+    rw [h1] at h2; exact h2
+  rw [importAll_append]
+  cases pre with
+  | nil =>
+    simp only [importAll, List.map_nil, List.nil_append]
+    have h1 := cold_via_root m hm
+    unfold cold at h1
+    rw [h1]
+    exact congrArg (fun x => [x]) hcold
+  | cons p rest =>
+    have hp := hpre p (List.mem_cons_self ..)
+    have e1 : importModule graph (fresh graph) p = (rootState, none) := by
+      have := cold_via_root p hp.1
+      unfold cold at this
+      rw [this]
+      exact importChain_present graph rootState p hp.2
+    have e2 := importAll_present graph rootState rest (fun x hx => (hpre x (List.mem_cons_of_mem _ hx)).2)
+    have e3 : importAll graph (fresh graph) (p :: rest) = (rootState, none :: rest.map (fun _ => none)) := by
+      simp only [importAll, e1, e2]
+    rw [e3]
+    simp only [importAll, List.map_cons, List.cons_append]
+    show none :: (List.map (fun _ => none) rest ++ [(importChain graph rootState (graph.chain m)).2]) = _
+    rw [hcold]
+
 /-- **C01, once imported, always importable** (generic lemma `importModule_again` on this graph): after a
 successful import of `m` in any state and any further imports, importing `m` again succeeds. -/
 theorem C01_reimport (s : State) (m : Mod) (ms : List Mod) (h : (importModule graph s m).2 = none) :
